@@ -103,6 +103,20 @@ Theorem C08_attributes_exact :
 Proof. exact attributes_exact. Qed.
 Print Assumptions C08_attributes_exact.
 
+(* ... the same THROUGH THE TEXT of the message: identity -> attributes -> serialised
+   AttributeStatement -> reader -> harvested attributes -> to_local (XML-legal values without CR) *)
+Theorem C08_attributes_via_text :
+  forall cv sp_acs allow ident locals,
+    legal_attributes (map (to_attr cv) ident) = true -> forallb no_cr_attribute (map (to_attr cv) ident) = true ->
+    map (fun kv => sp_name cv sp_acs (fst kv)) ident = map Some locals ->
+    Forall (fun kv => eptid_ok cv sp_acs (fst kv) (snd kv) = true) ident ->
+    NoDup locals ->
+    option_map (fun t => list_to_local sp_acs allow (attrs_of_statement_xml t))
+               (xml_parse (serialise (attr_statement_xml (map (to_attr cv) ident)))) =
+    Some (combine locals (map (fun kv => plain_values (snd kv)) ident)).
+Proof. exact attributes_via_text. Qed.
+Print Assumptions C08_attributes_via_text.
+
 (* a key the IdP's converter does not know travels under its own name (format uri): the SP
    reports it only if its uri converter knows that name, or - with allow_unknown_attributes -
    under its own trimmed name; otherwise it is left out *)
